@@ -265,6 +265,19 @@ theorem dir_subdirectories_ignored (ci : Bool) (exts : List Name) (hne : [] ∉ 
   intro hin
   exact hs (by rw [hn]; exact List.mem_append_left _ hin)
 
+/-- **every plasmid file is listed**: a regular file of the directory named `stem.ext` — `ext` one of the
+extensions (none empty, this one without a dot), the stem non-empty, not the single dot, no `/` in the name —
+is yielded under its stem and can be looked up, whatever else the directory holds and however the filesystem
+matches wildcards -/
+theorem dir_plasmid_files_listed (ci : Bool) (exts : List Name) (hne : [] ∉ exts) (dir : List Entry)
+    (f : Entry) (hf : f ∈ dir) (hfile : f.isFile = true) (k e : Name) (hname : f.name = k ++ dotC :: e)
+    (he : e ∈ exts) (hd : dotC ∉ e) (hk : k ≠ []) (hk1 : k ≠ [dotC]) (hs : slashC ∉ f.name) :
+    k ∈ keys ci exts dir ∧ (lookup exts dir k).isSome := by
+  have hkey : key exts f.name = some k := by
+    rw [hname]; exact key_of_plasmid_name he hd hk hk1 (by rw [← hname]; exact hs)
+  have hmem : k ∈ keys ci exts dir := (mem_keys_iff hne).mpr ⟨f, hf, hfile, hkey⟩
+  exact ⟨hmem, (dir_lookup_iff_iterated ci exts hne dir k).mpr hmem⟩
+
 /-- `len()` is the number of keys iteration yields (the definition of `__len__`), and with distinct file stems
 no key comes twice -/
 theorem dir_keys_nodup (ci : Bool) (exts : List Name) (dir : List Entry)
